@@ -414,7 +414,9 @@ def ex_res(case, obs):
 # spaces
 
 def _cutoffs(box):
-    return list(range(1, min(box) // 2 + 1))
+    # up to the Nyquist radius of the LONGEST axis: on a non-cubic box the pass-band sphere is then cut by the faces of the
+    # short axes (cutoffs 1..N/2 with N "per axis" in the quantifier)
+    return list(range(1, max(box) // 2 + 1))
 
 
 def _alt_waves(box):
